@@ -5,6 +5,9 @@ package main
 // time, bytes allocated) and its outcome compared with the model's.
 
 import (
+	"os/exec"
+	"io"
+	"bufio"
 	"bytes"
 	"encoding/binary"
 	"fmt"
@@ -185,6 +188,12 @@ func init() {
 		}
 		seeds = append(seeds, seed{"gen:webp-vp8", "webp", buildWebP(rng, webpOpt{kind: "vp8", w: 20, h: 10, body: 40}).Data},
 			seed{"gen:webp-vp8l", "webp", buildWebP(rng, webpOpt{kind: "vp8l", w: 20, h: 10, body: 40}).Data})
+		// the largest chunk counts the one-byte APP2 sequence/total fields can express, all chunks present
+		var lightSeeds []seed
+		for _, nch := range []int{255, 254, 128} {
+			lightSeeds = append(lightSeeds, seed{fmt.Sprintf("gen:jpeg-icc-%d-chunks", nch), "jpeg",
+				buildJPEG(rng, jpegOpt{w: 20, h: 10, precision: 8, ncomp: 3, nBefore: 1, nAfter: 1, icc: genProfile(rng, 3*nch, false), chunkSize: 3, body: 40, iccAfterSOF: nch == 254}).Data})
+		}
 
 		current := c.out + "/current-input.hex"
 		run := func(kind, what string, s seed, data []byte) {
@@ -283,6 +292,12 @@ func init() {
 						status = "ok " + hx([]byte(dsc))
 					}
 				}
+				if o.status == "panic" {
+					status = "panic"
+				}
+				if len(p) <= 1<<16 && len(plat386) < 6000 {
+					plat386 = append(plat386, platCase{append([]byte{}, p...), status, in})
+				}
 				if c.runner != nil && len(p) < 200000 {
 					m := c.runner.Ask("icc_desc " + hx(p))
 					c.res.ModelCases++
@@ -379,6 +394,20 @@ func init() {
 				run("truncation", fmt.Sprintf("truncated@%d", cut), s, s.data[:cut])
 			}
 		}
+		// (c') the many-chunk JPEGs: unchanged, a sample of single-field boundary values, a few truncations
+		for _, s := range lightSeeds {
+			run("seed", "unchanged", s, s.data)
+			fs := jpegFields(s.data)
+			for i := 0; i < 40 && len(fs) > 0; i++ {
+				f := fs[rng.Intn(len(fs))]
+				v := boundaryValues[rng.Intn(len(boundaryValues))]
+				run("field", fmt.Sprintf("%s@%d=%#x", f.what, f.off, v&(1<<(8*uint(f.width))-1)), s, setField(s.data, f, v))
+			}
+			for i := 0; i < 12; i++ {
+				cut := rng.Intn(len(s.data) + 1)
+				run("truncation", fmt.Sprintf("truncated@%d", cut), s, s.data[:cut])
+			}
+		}
 		// (d) pairs of neighbouring fields driven together (count x size, offset x size, length x width, seq x total)
 		pairVals := []uint64{0, 1, 12, 0x7fffffff, 0xffffffff}
 		for _, s := range seeds {
@@ -448,6 +477,94 @@ func init() {
 			run("shared-tags", fmt.Sprintf("%d tags sharing one %d-byte region", T, R), seed{"gen:icc-shared-tags", "icc", p}, p)
 		}
 		os.Remove(current)
+		checkPlatform386(c)
 		runtime.GC()
+	}
+}
+
+// ---- the same hostile profiles on a 32-bit platform ----
+// int is 32 bits wide under GOARCH=386: counts and offsets taken from the input (all of them 32-bit
+// fields) no longer fit a signed int, and arithmetic that is harmless on amd64 wraps.  The profiles met
+// in this run are handed to the GOARCH=386 build of this program (subcommand hostile386) and its
+// outcome per profile - description, error, or an escaped panic - must be the one obtained here.
+type platCase struct {
+	data   []byte
+	status string
+	in     map[string]interface{}
+}
+
+var plat386 []platCase
+
+func iccStatus(p []byte) (status string) {
+	defer func() {
+		if r := recover(); r != nil {
+			status = "panic"
+		}
+	}()
+	prof, err := icc.NewProfileReader(bytes.NewReader(p)).ReadProfile()
+	if err != nil || prof == nil {
+		return "err"
+	}
+	dsc, derr := prof.Description()
+	if derr != nil {
+		return "desc-err"
+	}
+	return "ok " + hx([]byte(dsc))
+}
+
+func hostile386Main() {
+	in, _ := io.ReadAll(os.Stdin)
+	w := bufio.NewWriter(os.Stdout)
+	defer w.Flush()
+	for len(in) >= 4 {
+		n := int(binary.LittleEndian.Uint32(in))
+		if n < 0 || len(in) < 4+n {
+			break
+		}
+		fmt.Fprintln(w, iccStatus(in[4:4+n]))
+		w.Flush()
+		in = in[4+n:]
+	}
+}
+
+func checkPlatform386(c *ctx) {
+	bin386 := os.Getenv("VERIF_ROOT") + "/build/bin/vharness386"
+	if _, err := os.Stat(bin386); err != nil {
+		c.res.Notes = append(c.res.Notes, "no GOARCH=386 build of the harness: 32-bit platform run of the hostile profiles skipped")
+		return
+	}
+	var buf bytes.Buffer
+	for _, pc := range plat386 {
+		binary.Write(&buf, binary.LittleEndian, uint32(len(pc.data)))
+		buf.Write(pc.data)
+	}
+	cmd := exec.Command(bin386, "hostile386")
+	cmd.Stdin = &buf
+	var out bytes.Buffer
+	cmd.Stdout = &out
+	done := make(chan error, 1)
+	cmd.Start()
+	go func() { done <- cmd.Wait() }()
+	var err error
+	select {
+	case err = <-done:
+	case <-time.After(240 * time.Second):
+		cmd.Process.Kill()
+		err = fmt.Errorf("no answer within 240 s")
+	}
+	lines := strings.Split(strings.TrimRight(out.String(), "\n"), "\n")
+	if out.Len() == 0 {
+		lines = nil
+	}
+	for i, pc := range plat386 {
+		c.res.count("platform-386", string(pc.data), true)
+		if i >= len(lines) {
+			c.res.fail(Failure{Class: "C09:platform-386:process", Desc: fmt.Sprintf("the GOARCH=386 build stopped (%v) on hostile profile #%d: crash, hang or exhausted memory on a 32-bit platform", err, i), Input: pc.in, Got: fmt.Sprint(err), Want: pc.status})
+			return
+		}
+		if lines[i] != pc.status {
+			c.res.fail(Failure{Class: "C09:platform-386", Desc: "ReadProfile/Description on the GOARCH=386 build differs from this platform's outcome (panic = a panic escaped there)", Input: pc.in, Got: short(lines[i], 120), Want: short(pc.status, 120)})
+			return
+		}
 	}
 }
